@@ -106,6 +106,11 @@ type HRun struct {
 	T bool `json:"t"` // under a <table> in the output
 }
 
+func (s *Src) hasTok(id int) bool {
+	_, ok := s.tok[id]
+	return ok
+}
+
 type OutTbl struct {
 	T     int `json:"t"`
 	Rows  int `json:"rows"`
@@ -242,6 +247,8 @@ func (p *projector) words(s string) []int {
 		if m := rxTokWord.FindStringSubmatch(f); m != nil {
 			n, _ := strconv.Atoi(m[1])
 			out = append(out, n)
+		} else if id, ok := litWords[f]; ok && p.src != nil && p.src.hasTok(id) {
+			out = append(out, id)
 		} else if p.src != nil && p.src.raw[f] {
 			continue
 		} else if p.src != nil && p.src.glued[f] {
